@@ -1,6 +1,68 @@
-"""C02: unit contracts (contracts/*.py) plus the GENPROG obligations that carry this property (generated model loaders)."""
+"""C02: unit contracts (contracts/*.py) plus the GENPROG obligations that carry this property (generated model loaders), plus a bounded
+check of the documented TYPE ALIASES: specific-types-behavior.rst gives one rule for "Dict and Mapping", one for the abstract iterables
+(loaded as tuple / list / frozenset / set of their implementation), one for ByteString — the loaders / dumpers of the abstract spelling
+must behave exactly like those of the implementation the documentation names, element types included.  (The dispatch from the abstract
+class to the implementation runs through provider search on live typing objects; it is outside the contracts, hence bounded.)"""
+import itertools
+
+
+def alias_checks():
+    import collections.abc as cabc
+    import typing
+    from decimal import Decimal
+
+    from adaptix import DebugTrail, Retort
+    pairs = [
+        (typing.Mapping, typing.Dict, 2), (typing.MutableMapping, typing.Dict, 2), (cabc.Mapping, dict, 2), (cabc.MutableMapping, dict, 2),
+        (typing.Sequence, typing.Tuple, "var"), (typing.Iterable, typing.Tuple, "var"), (typing.Collection, typing.Tuple, "var"),
+        (typing.MutableSequence, typing.List, 1), (typing.AbstractSet, typing.FrozenSet, 1), (typing.MutableSet, typing.Set, 1),
+        (cabc.Sequence, tuple, "var"), (cabc.MutableSequence, list, 1),
+    ]
+    elem_types = [int, Decimal, bool, typing.List[Decimal]]
+    load_samples = [{"a": "1.5"}, {"a": 1}, {"a": True}, {"a": ["2.5"]}, {1: 2}, ["1.5"], [1], [True], [["2.5"]], "ab", 5, None, {}, []]
+    dump_samples = [{"a": Decimal("1.5")}, {"a": 1}, {"a": [Decimal("2.5")]}, [Decimal("1.5")], (1, 2), [[Decimal("2.5")]], {1}, frozenset({True}), {}, []]
+    viol, n = [], 0
+
+    def behaviour(fn, samples):
+        out = []
+        for s in samples:
+            try:
+                r = fn(s)
+                out.append(("ret", type(r).__name__, repr(r)))
+            except Exception as e:  # noqa: BLE001
+                out.append(("raise", type(e).__name__))
+        return out
+    for (abstract, impl, arity), strict, dt in itertools.product(pairs, (True, False), (DebugTrail.DISABLE, DebugTrail.ALL)):
+        retort = Retort(strict_coercion=strict, debug_trail=dt)
+        arg_sets = [(str, e) for e in elem_types] if arity == 2 else [(e,) for e in elem_types]
+        for args in arg_sets:
+            a_tp = abstract[args]
+            i_tp = impl[args + (...,)] if arity == "var" else impl[args]
+            label = f"{getattr(abstract, '__module__', '')}.{getattr(abstract, '_name', None) or abstract.__name__}[{', '.join(getattr(x, '__name__', repr(x)) for x in args)}]"
+            for kind, samples in (("load", load_samples), ("dump", dump_samples)):
+                n += 1
+                try:
+                    fa = retort.get_loader(a_tp) if kind == "load" else retort.get_dumper(a_tp)
+                    fi = retort.get_loader(i_tp) if kind == "load" else retort.get_dumper(i_tp)
+                except Exception as e:  # noqa: BLE001
+                    viol.append({"unit": "documented type aliases", "clause": "alias-created", "witness": f"{kind} {label}",
+                                 "w": {"input": label, "native_outcome": f"{type(e).__name__}: {str(e)[:200]}"}})
+                    continue
+                ba, bi = behaviour(fa, samples), behaviour(fi, samples)
+                if ba != bi:
+                    k = next(i for i, (x, y) in enumerate(zip(ba, bi)) if x != y)
+                    viol.append({"unit": "documented type aliases", "clause": "alias-behaves-like-implementation",
+                                 "witness": f"{kind} {label} strict={strict} {dt.name}"[:160],
+                                 "w": {"input": f"{kind} {samples[k]!r} as {label}"[:300],
+                                       "native_outcome": f"{ba[k]!r}, but as {getattr(impl, '_name', None) or impl.__name__}[...] it gives {bi[k]!r}"[:300]}})
+    return {"obligations": 0, "discharged": 0, "violations": viol[:40], "solver_time": 0.0,
+            "bounded": [{"unit": "abstract collection hints vs the documented implementation (Mapping ~ Dict, Sequence ~ Tuple[..., ...], ...)",
+                         "bound": f"{n} loader / dumper pairs: {len(pairs)} aliases x {len(elem_types)} element types x strict / lax x DISABLE / ALL, "
+                                  f"{len(load_samples)} + {len(dump_samples)} samples"}],
+            "samples": [{"alias_pairs": n, "failed": len(viol)}],
+            "assumptions": ["alias equivalence is checked only on this bounded family"]}
 
 
 def extra_checks(tier, seed):
     from genprog.check import extra_for_property
-    return [extra_for_property("C02", tier, seed)]
+    return [extra_for_property("C02", tier, seed), alias_checks()]
